@@ -85,9 +85,12 @@ def ttIs (A : Arr) (n : Nat) (f : (Nat → Bool) → Bool) : Bool :=
 
 /-- sampled valuations for large `n`: all false, all true, the indicator of `x` and its complement, and some
     pseudo-random ones -/
-def samples (_n x : Nat) : List (Nat → Bool) :=
+def samples (n x : Nat) : List (Nat → Bool) :=
   [fun _ => false, fun _ => true, fun i => i == x, fun i => i != x,
-   fun i => i % 2 == 0, fun i => (i * 7 + x) % 3 == 0, fun i => i < x, fun i => i ≤ x]
+   fun i => i % 2 == 0, fun i => (i * 7 + x) % 3 == 0, fun i => i < x, fun i => i ≤ x] ++
+  -- every number of true variables 0 … n, in three arrangements (thresholds over many variables)
+  (if n ≤ 64 then (List.range (n + 1)).flatMap fun j =>
+    ([fun i => decide (i < j), fun i => decide (i + j ≥ n), fun i => decide ((i * 7) % n < j)] : List (Nat → Bool)) else [])
 
 def semIs (A : Arr) (n x : Nat) (f : (Nat → Bool) → Bool) : Bool :=
   if numVars A != n then false
@@ -223,11 +226,14 @@ def handle (key : String) (ins obs : List String) : Verdict :=
       let fail := fail <|> (match parseArr? r with | some A => if isCanon A then none else some "not-canonical" | none => none)
       { agree := model == r, model, fail, nontrivial := n ≥ 1, tags := ["val", if n ≤ maxTT then "tt" else "sampled"] }
     | _ => Verdict.bad "args"
-  | "C16.exactly", [n, k, vars] | "C16.upto", [n, k, vars] =>
+  | "C16.exactly", [n, k, vars] | "C16.upto", [n, k, vars]
+  | "C16.exactlyB", [n, k, vars] | "C16.uptoB", [n, k, vars] =>
     match n.toNat?, k.toNat?, parseNats? vars, obs with
     | some n, some k, some vars, [r] =>
-      let exact := key == "C16.exactly"
-      let model := showOutcomeArr (if exact then mkSatExactlyK n k vars else mkSatUpToK n k vars)
+      let exact := key == "C16.exactly" || key == "C16.exactlyB"
+      -- `k` rounds beyond `len + 1` change nothing (theorem `Props.C16.sat_k_beyond_length`): replay `min k (len+1)`
+      let kk := min k (vars.length + 1)
+      let model := showOutcomeArr (if exact then mkSatExactlyK n kk vars else mkSatUpToK n kk vars)
       let inRange := vars.all (· < n)
       let spec : (Nat → Bool) → Bool := fun v => if exact then countTrue vars v == k else countTrue vars v ≤ k
       let fail := if !inRange then none else checkBdd r n 0 spec (if exact then "exactly" else "up_to")
@@ -235,7 +241,7 @@ def handle (key : String) (ins obs : List String) : Verdict :=
         nontrivial := inRange && vars.length ≥ 1,
         tags := [if exact then "exactly" else "upto",
           if !inRange then "out-of-range" else if hasDup (vars.map toString) then "dup" else "nodup",
-          if k > vars.eraseDups.length then "k>len" else if k == 0 then "k=0" else "k-mid"] }
+          if k ≥ 65536 then "k>=2^16" else if k > vars.eraseDups.length then "k>len" else if k == 0 then "k=0" else "k-mid"] }
     | _, _, _, _ => Verdict.bad "args"
   | _, _ => Verdict.bad ("key " ++ key)
 
